@@ -1,4 +1,5 @@
 import BoxoModel.C37.Model
+import BoxoModel.C37.SessionWants
 /-! Line-protocol driver for C37 (protocol: /verif/harness/cmd/c37/main.go). After every external op the
 internal events (forwarder receive/send, handleIncoming receive) are run to quiescence, which is what the real
 goroutines do while the harness blocks on its next observation; the theorems hold for every schedule. -/
@@ -7,6 +8,7 @@ open C37
 structure D where
   st : Option St := none
   done : Bool := false
+  sw : Option SW.St := none
 
 /-- run the internal events to quiescence -/
 def settle : Nat → St → St
@@ -29,10 +31,37 @@ def showNats (xs : List Nat) : String :=
 
 def inFlight (s : St) : Bool := !(s.vbuf.isEmpty && s.fHeld.isNone && s.bbuf.isEmpty && s.hHeld.isNone)
 
+def showList (xs : List Nat) : String := "[" ++ ",".intercalate (xs.map toString) ++ "]"
+
+def swDigest (s : SW.St) : String :=
+  s!" | P {s.set.length} E {showList s.elems} L {showNats s.live} O {showList s.order}"
+
+/-- sessionWants ops (a case that starts with `sw <limit>`) -/
+def swLine (s : SW.St) (toks : List String) : Option (SW.St × String) :=
+  let nums (ts : List String) : Option (List Nat) := ts.mapM String.toNat?
+  match toks with
+  | "req" :: ks => (nums ks).map fun ks => ((SW.step s (.req ks)).1, "ok")
+  | "sent" :: ks => (nums ks).map fun ks => ((SW.step s (.sent ks)).1, "ok")
+  | "cancelp" :: ks => (nums ks).map fun ks => ((SW.step s (.cancel ks)).1, "ok")
+  | "recv" :: ks => (nums ks).map fun ks => let r := SW.step s (.recv ks); (r.1, showList r.2)
+  | ["next"] => let r := SW.step s .next; some (r.1, showList r.2)
+  | ["bcast"] => some (s, showList (SW.step s .bcast).2)
+  | ["live"] => some (s, showNats s.live)
+  | ["rand"] => some (s, "ok")
+  | _ => none
+
 def stepLine (d : D) (line : String) : D × String :=
-  match (line.trimAscii.toString.splitOn " ").filter (· ≠ "") with
+  let toks := (line.trimAscii.toString.splitOn " ").filter (· ≠ "")
+  match d.sw, (d.sw.bind fun s => swLine s toks) with
+  | some _, some (s', res) => ({ d with sw := some s' }, res ++ swDigest s')
+  | _, _ =>
+  match toks with
   | ["case", n] => ({}, s!"case {n}")
   | ["end"] => ({}, "end")
+  | ["sw", lim] =>
+    match lim.toInt? with
+    | some lim => let s : SW.St := { limit := lim }; ({ sw := some s }, "ok" ++ swDigest s)
+    | none => (d, "bad-op")
   | "get" :: ks =>
     match ks.mapM String.toNat? with
     | some ks => ({ st := some (settled (start ks)), done := ks.isEmpty }, "ok")
